@@ -1175,6 +1175,13 @@ class Interp:
             cur = o.fields.get(path[-1])
             if cur is None:
                 return
+            if isinstance(cur, VSet) and cur.z is None:
+                # a still untyped empty set() stored in a field whose type the registry declares: havoc it at that type
+                ty = (self.reg.class_fields.get(o.cls) or {}).get(path[-1])
+                nv0 = self.fresh(ty, path[-1]) if ty is not None else None
+                if isinstance(nv0, VSet):
+                    cur.z, cur.elem = nv0.z, nv0.elem
+                    return
             if isinstance(cur, (VSeq, VSet, VMap)):
                 # keep holder identity (aliases stay aliases)
                 nv = self.fresh_like(cur, path[-1])
@@ -1883,6 +1890,10 @@ class Interp:
         elif isinstance(a, VTuple) and isinstance(b, VTuple):
             return self.tuple_cmp(op, a, b)
         elif isinstance(a, VSet) and isinstance(b, VSet) and isinstance(op, (ast.LtE,)):
+            if a.z is None:                     # the still untyped empty set(): a subset of anything
+                return z3.BoolVal(True)
+            if b.z is None:                     # S <= set()  iff  S is empty
+                return a.z == z3.K(a.z.sort().domain(), z3.BoolVal(False))
             return z3.IsSubset(a.z, b.z)
         else:
             if isinstance(a, (VStr, VInt, VReal, VBool, VNoneT, VSeq, VList, VJsonDict, VDict)) and \
